@@ -229,6 +229,32 @@ fn case<S: Scheme>(ctx: &mut Ctx, rng: &mut ChaCha20Rng) {
         let o = check_lc::<S>(&tx, &ls.lcs, &ls.qs, &ev, &proof, rng.next_u64());
         ctx.check(!o.is_accept(), "lc-value-perturbed", "check_combinations", desc.clone(), || json!({"outcome": o.json(), "lc": k.0}));
     }
+    // ---- two claimed LC values wrong at once: errors that cancel in a plain sum, and two values exchanged
+    if keys.len() >= 2 {
+        let a = below(rng, keys.len());
+        let mut b = below(rng, keys.len() - 1);
+        if b >= a {
+            b += 1;
+        }
+        let d = nz::<S>(rng);
+        let mut ev = ls.evals.clone();
+        *ev.get_mut(&keys[a]).unwrap() += d;
+        *ev.get_mut(&keys[b]).unwrap() -= d;
+        let o = check_lc::<S>(&tx, &ls.lcs, &ls.qs, &ev, &proof, rng.next_u64());
+        ctx.check(!o.is_accept(), "lc-values-cancelling-pair", "check_combinations", desc.clone(), || json!({"outcome": o.json(), "lcs": [keys[a].0, keys[b].0]}));
+        if ls.evals[&keys[a]] != ls.evals[&keys[b]] {
+            let mut ev = ls.evals.clone();
+            let (va, vb) = (ls.evals[&keys[a]], ls.evals[&keys[b]]);
+            ev.insert(keys[a].clone(), vb);
+            ev.insert(keys[b].clone(), va);
+            let o = check_lc::<S>(&tx, &ls.lcs, &ls.qs, &ev, &proof, rng.next_u64());
+            ctx.check(!o.is_accept(), "lc-values-swapped", "check_combinations", desc.clone(), || json!({"outcome": o.json(), "lcs": [keys[a].0, keys[b].0]}));
+        } else {
+            ctx.skipped("lc-values-swapped", "the two claimed values coincide");
+        }
+    } else {
+        ctx.skipped("lc-values-cancelling-pair", "a single claimed value");
+    }
     // ---- verifier-side coefficient changed
     {
         let li = below(rng, ls.lcs.len());
@@ -328,6 +354,7 @@ fn case<S: Scheme>(ctx: &mut Ctx, rng: &mut ChaCha20Rng) {
 }
 
 pub fn run(ctx: &mut Ctx) {
+    crate::schemes::set_custom_params(true);
     for_each_scheme!(ctx, S, {
         let n = ctx.n(120, 2400) / <S as Scheme>::WEIGHT.max(1);
         ctx.run_cases(<S as Scheme>::NAME, n.max(4), |ctx, _i, rng| case::<S>(ctx, rng));
